@@ -1,6 +1,7 @@
 (* Operation sequences on SHARED sweep objects (C17): Python objects live in a heap, slots refer to them.
-   Sweep objects are never modified by the modelled code; a MultiSweep object holds references to its members and
-   is modified in place by MultiSweep.__add__ / combine (self.sweeps.extend / append, `return self`).
+   No modelled operation modifies an existing object: a MultiSweep object holds references to its members, and
+   MultiSweep.__add__ builds a new MultiSweep (only `combine`, which is not among the modelled operations, works in
+   place).
    Definitions only. *)
 From Verif Require Import Base.Prelude Base.Index Model.Sweep.
 
@@ -39,13 +40,6 @@ Fixpoint alloc (m : msweep) (h : heap) : heap * nat :=
       (fst hi ++ [HMulti (snd hi)], length (fst hi))
   end.
 
-Fixpoint set_nth {A} (l : list A) (n : nat) (x : A) : list A :=
-  match l, n with
-  | [], _ => []
-  | _ :: t, 0 => x :: t
-  | y :: t, S n' => y :: set_nth t n' x
-  end.
-
 Inductive mop :=
 | MProduct (i : nat) (js : list nat)        (* slots[i].product( *slots[js] ) *)
 | MAdd (i j : nat)                          (* slots[i] + slots[j] *)
@@ -79,8 +73,9 @@ Definition step (h : heap) (slots : list nat) (op : mop) : step_res :=
   | MAdd i j =>
       match slot_obj h slots i, slot_obj h slots j with
       | Some (a, HSweep _), Some (b, _) => SNew (h ++ [HMulti [a; b]]) (length h)     (* MultiSweep(self, other) *)
-      | Some (a, HMulti ms), Some (b, HMulti ms') => SNew (set_nth h a (HMulti (ms ++ ms'))) a   (* extend; return self *)
-      | Some (a, HMulti ms), Some (b, HSweep _) => SNew (set_nth h a (HMulti (ms ++ [b]))) a     (* append; return self *)
+      (* MultiSweep( *self.sweeps ).combine(other): a NEW object; extend with the members / append the object *)
+      | Some (a, HMulti ms), Some (b, HMulti ms') => SNew (h ++ [HMulti (ms ++ ms')]) (length h)
+      | Some (a, HMulti ms), Some (b, HSweep _) => SNew (h ++ [HMulti (ms ++ [b])]) (length h)
       | _, _ => SBad
       end
   | MFilter i keys =>
